@@ -93,6 +93,7 @@ class Template:
         self.accs = {}
         self.folds = {}
         self.sigs = {}
+        self.objs = {}
         self.submodules = []        # (name IR or None, value IR, gen frames, lineno)
         self.connects = []          # (a IR, b IR, gen frames, lineno)
         self.calls = []             # other call statements: (IR, gen frames, dsl frames, lineno)
@@ -322,6 +323,14 @@ class Walker:
                 ctor = self.ex(st.value)
                 self.t.sigs[sid] = LocalSig(sid, t.id, ctor, self.gen, st.lineno)
                 self.bind(t.id, ('sig', sid, t.id))
+                return
+            # local instance of a repository class: a fresh object with identity
+            fir = ir.from_ast(fn, {})
+            if fir[0] in ('name', 'attr') and self.index.resolve_class(fir, self.fi.module, self.fi.cls) is not None \
+                    and self.m is not None:
+                oid = self.fresh()
+                self.t.objs[oid] = LocalSig(oid, t.id, self.ex(st.value), self.gen, st.lineno)
+                self.bind(t.id, ('obj', oid, t.id))
                 return
         v = self.ex(st.value)
         self.assign_target(t, v, st)
